@@ -10,6 +10,7 @@
 #include <xercesc/framework/XMLValidityCodes.hpp>
 #include <xercesc/framework/XMLGrammarPoolImpl.hpp>
 #include <xercesc/sax/HandlerBase.hpp>
+#include <xercesc/framework/psvi/PSVIHandler.hpp>
 #include <xercesc/sax/SAXException.hpp>
 #include <xercesc/sax/SAXParseException.hpp>
 #include <xercesc/util/XMLUni.hpp>
@@ -61,6 +62,15 @@ public:
     }
 };
 
+// a PSVIHandler that ignores everything (request flag "+p" on the scanner token): the scanners take different code
+// paths for the type information of an element when a handler is installed
+class NoopPSVI : public PSVIHandler {
+public:
+    void handleElementPSVI(const XMLCh* const, const XMLCh* const, PSVIElement*) override {}
+    void handlePartialElementPSVI(const XMLCh* const, const XMLCh* const, PSVIElement*) override {}
+    void handleAttributesPSVI(const XMLCh* const, const XMLCh* const, PSVIAttributeList*) override {}
+};
+
 static std::string unhex(const std::string& h) {
     std::string out;
     if (h == "-") return out;
@@ -75,9 +85,25 @@ static std::string workDir() {
 
 static std::string doIC(const std::vector<std::string>& a) {
     const std::string& scheme = a[1];
-    const std::string& scanner = a[2];
+    std::string scanner = a[2];
+    bool withPSVI = false;
+    if (scanner.size() > 2 && scanner.substr(scanner.size() - 2) == "+p") { withPSVI = true; scanner = scanner.substr(0, scanner.size() - 2); }
     const std::string& load = a[3];
-    std::string xsd = unhex(a[4]);
+    // schema token: MAIN or MAIN:IMPORTED (hex); the imported schema (namespace of the qualified attributes) is written to
+    // a file and the marker @@A@@ in the main schema's xs:import is replaced by its path
+    std::string xsdTok = a[4], impTok;
+    size_t colon = xsdTok.find(':');
+    if (colon != std::string::npos) { impTok = xsdTok.substr(colon + 1); xsdTok = xsdTok.substr(0, colon); }
+    std::string xsd = unhex(xsdTok);
+    std::string impPath;
+    if (!impTok.empty()) {
+        impPath = workDir() + "/a" + std::to_string((long)getpid()) + ".xsd";
+        std::ofstream f(impPath.c_str(), std::ios::binary | std::ios::trunc);
+        f << unhex(impTok);
+        f.close();
+        size_t p = xsd.find("@@A@@");
+        if (p != std::string::npos) xsd.replace(p, 5, impPath);
+    }
     std::string xml = unhex(a[5]);
     Collector col;
     std::string xsdPath;
@@ -104,6 +130,8 @@ static std::string doIC(const std::vector<std::string>& a) {
         parser.setDoSchema(true);
         parser.setValidationSchemaFullChecking(true);
         parser.setIdentityConstraintChecking(true);
+        NoopPSVI psvi;
+        if (withPSVI) parser.setPSVIHandler(&psvi);
         if (load == "pool") {
             MemBufInputSource src((const XMLByte*)xsd.data(), xsd.size(), "c10.xsd");
             Grammar* g = parser.loadGrammar(src, Grammar::SchemaGrammarType, true);
@@ -133,6 +161,7 @@ static std::string doIC(const std::vector<std::string>& a) {
         return "exc unknown";
     }
     if (!xsdPath.empty()) unlink(xsdPath.c_str());
+    if (!impPath.empty()) unlink(impPath.c_str());
     res = "r";
     if (col.ic.empty()) res += " -";
     for (auto& kv : col.ic) res += " " + kv.first + "*" + std::to_string(kv.second);
